@@ -76,14 +76,14 @@ def pv_macro(v):
     return sources.pv(v)
 
 
-def gen_programs(ctx, n, big=False, layouts=('canonical', 'random', 'multi', 'macro', 'reentry', 'canonical_multi', 'backjump', 'oneline', 'repeat', 'redefmarks'), looponly=False):
+def gen_programs(ctx, n, big=False, layouts=('canonical', 'random', 'multi', 'macro', 'reentry', 'canonical_multi', 'backjump', 'oneline', 'repeat', 'redefmarks', 'taillabel'), looponly=False):
     """sources with their typed form; returns list of dicts {defs, main, main_file, files, layout, L}"""
     r = ctx.rnd
     out = []
     for _ in range(n):
         lay = r.choice(layouts)
         g = sources.Gen(r, big=big, looponly=looponly or (lay == 'repeat' and r.random() < 0.7))
-        defs, main = sources.reentry_program(r) if lay == 'reentry' else (sources.backjump_program(r) if lay == 'backjump' else (sources.redef_marks_program(r) if lay == 'redefmarks' else g.program()))
+        defs, main = sources.reentry_program(r) if lay == 'reentry' else (sources.backjump_program(r) if lay == 'backjump' else (sources.redef_marks_program(r) if lay == 'redefmarks' else (sources.taillabel_program(r) if lay == 'taillabel' else g.program())))
         L = None
         if lay == 'canonical_multi':
             fl, L = sources.canonical_multi(defs, main, r)
@@ -117,6 +117,14 @@ def gen_programs(ctx, n, big=False, layouts=('canonical', 'random', 'multi', 'ma
             fl['m'] = head + inc + sources.st_toks(main)
             main = copies + main
             files = {kk.encode(): sources.text_of_tokens(v, r).encode() for kk, v in fl.items()}
+        elif lay == 'taillabel':
+            # the tail on one line (several statements share it), or a few line breaks, or one statement per line
+            k_ = r.random()
+            if k_ < 0.6:
+                files = {b'm': sources.text_of_tokens(sources.toks(defs, main), r, r.choice([0.0, 0.05, 0.15])).encode()}
+            else:
+                text, L = sources.canonical(defs, main, r)
+                files = {b'm': text.encode()}
         elif lay == 'oneline':
             # everything on one line (or very few): all constructs share their line number
             files = {b'm': sources.text_of_tokens(sources.toks(defs, main), r, r.choice([0.0, 0.0, 0.02])).encode()}
